@@ -123,6 +123,18 @@ def tree_calls(tree, out=None):
     return out
 
 
+def subtrees(tree, out=None):
+    """every list-shaped subtree whose head is a string tag (the tree itself included)"""
+    if out is None:
+        out = []
+    if isinstance(tree, list):
+        if tree and isinstance(tree[0], str):
+            out.append(tree)
+        for x in tree:
+            subtrees(x, out)
+    return out
+
+
 def tree_name(tree):
     """erased name of a call-like tree"""
     if isinstance(tree, list) and tree and tree[0] in ("call", "mcall", "opcall"):
